@@ -11,8 +11,13 @@ recomputes the expected values from the instance in the event and evaluates the 
 Relations on a tiny SOLVED device (Solution.field_at_position / vector_potential_at_position, total vs parts,
 scalar vs vector, linearity, direct SI sums, unit choices, H vs B) and the loop laws are quantised pairs that
 the trace specification requires to agree.
-The clause "closed-form loop potential matches numerical quadrature" has no finite exact instance: only
-linearity in the current, the scaling law A(s r; s R) = A(r; R) and the symmetries are checked."""
+The clause "closed-form loop potential matches numerical quadrature" (FieldKernels!LoopMatchesQuadrature): the real
+closed form (em.current_loop_vector_potential, sources.CurrentLoop) and the harness' own quadrature of
+mu0 I/4pi \\oint dl/|r - r'| (harness/fields.py: loop_quadrature; literal SI constants, the numbers passed in) at the
+points of the regimes on_axis / near_axis (rho/R = 1e-9 .. 1e-3) / far_field (>= 200 R) / generic of several loops
+(radii, off-centre, three unit systems, both signs of the current), quantised per point to 1e-9 of the point's scale;
+the trace specification requires every component finite (NaN / inf is accepted by no action), the reference zero on
+the axis, and agreement within 1e-6 of the scale."""
 from __future__ import annotations
 
 import copy
@@ -26,6 +31,8 @@ INVS = ["Linear", "ScalarEqualsVectorZ", "TotalIsSumOfParts", "MirrorSymmetry", 
 TOL_EXACT = 1000       # quanta of 1e-12 (relative): 1e-9
 REL_Q = 1e9            # relations: values quantised to 1e-9 of their scale ...
 TOL_REL = 1000         # ... and must agree to 1e-6 (kernels and reference differ by 1e-13; a wrong factor by >= 2)
+# loop clause: the same 1e-6 of the per-point scale (fields.loop_scale).  Noise: closed form vs quadrature 1e-15 .. 1e-10 where the
+# closed form is evaluated stably, + 6e-10 (mu0 literal); effects of interest: 5e-6 (rho/R = 1e-5) .. 1e-1 (1e-7) .. NaN (<= 1e-8, axis)
 
 
 def cfg(quick, invs, spec="Spec", sign=True, mu0=True, k=2, areas="{1, 2}"):
@@ -85,6 +92,8 @@ def _run(ctx):
     jobs.append(("call", dict(module="harness.fields", func="z0_relations", args=dict(z0=0.7))))      # a layer that is not at z = 0
     for k in (1, 3, 25):        # time-dependent applied potential, frames saved every k steps
         jobs.append(("call", dict(module="harness.fields", func="time_dependent_relations", args=dict(k=k, steps=50 if ctx.quick else 90))))
+    jobs.append(("call", dict(module="harness.fields", func="loop_quadrature", args=dict(dense=not ctx.quick))))
+    n_fixed_jobs = len(jobs)
     if not ctx.quick:
         for u in ([-6, -3, -3], [-3, 0, -9], [-9, -6, -9]):
             jobs.append(("call", dict(module="harness.fields", func="solved_relations", args=dict(dev="bar", u=u, loop=False))))
@@ -100,7 +109,8 @@ def _run(ctx):
         labels.append(("convert_field", f"{e['names'][0]} -> {e['names'][1]}" + (f" (raised {e['raised']})" if e.get("raised") else ""), None))
         ctx.note_case(("conv", e["names"][0], e["names"][1]), e["names"][0] != e["names"][1])
     nrel = 0
-    for sr in res[2:]:
+    loopq = res[n_fixed_jobs - 1]
+    for sr in res[2:n_fixed_jobs - 1] + res[n_fixed_jobs:]:
         for rel in sr["rel"]:
             scale = rel.get("scale") or max([abs(x) for x in rel["a"]] + [abs(x) for x in rel["b"]] + [1e-300])
             q = lambda xs: [int(max(-2e9, min(2e9, round(x / scale * REL_Q)))) if x == x else 2 * 10 ** 9 for x in xs]
@@ -108,6 +118,17 @@ def _run(ctx):
             labels.append(("relation", rel["name"] + ": " + rel["what"], {"a": rel["a"][:6], "b": rel["b"][:6]}))
             ctx.note_case(("rel", rel["name"], rel["what"], sr["nsites"], str(sr.get("u"))), True)
             nrel += 1
+    # the loop clause: one trace per (regime, exponent), one event per (loop, api)
+    nloop = {}
+    for g in loopq["groups"]:
+        traces.append({"tol": TOL_REL, "ev": [{k: v for k, v in e.items() if k != "meta"} for e in g["events"]]})
+        labels.append(("loopq", f"{g['regime']}" + (f" 1e{g['rexp']}" if g["regime"] in ("near_axis", "far_field") else ""), [e["meta"] for e in g["events"]]))
+        nloop[(g["regime"], g["rexp"])] = len(g["events"])
+        for e in g["events"]:
+            ctx.note_case(("loopq", g["regime"], g["rexp"], e["meta"]["loop"], e["meta"]["api"]), True)
+    ctx.cov["loop_quadrature"] = {"traces": len(loopq["groups"]), "events": sum(nloop.values()),
+                                  "points": sum(e["meta"]["points"] for g in loopq["groups"] for e in g["events"]),
+                                  "reference_selfcheck": loopq["selfcheck"], "tolerance": "1e-6 of the per-point scale (fields.loop_scale)"}
     tcfg = cfg(False, ["Accepted"] + INVS, spec="TSpec")
     accepted, rr = ctx.validate_traces("FieldKernelsTrace", traces, tcfg, name="FieldKernelsTrace[C20]")
     ctx.cov["traces_validated_against_impl"] += len(accepted)
@@ -124,6 +145,20 @@ def _run(ctx):
         elif kind == "convert_field":
             msg = f"C20: convert_field {what} observed factor 10^{e['ten']} * mu0^{e['mu']} (residual {e['r']} quanta), the model's exponent algebra differs"
             key = f"C20:conv:{what}"
+        elif kind == "loopq":
+            # presentation only (TLC rejected the trace): which events of the trace do not satisfy the clause, and the worst point of each
+            bad = [(ev, m) for ev, m in zip(t["ev"], extra) if ev["nonfinite"] or len(ev["a"]) != len(ev["b"])
+                   or max(abs(a - b) for a, b in zip(ev["a"], ev["b"])) > t["tol"]]
+            ev, m = bad[0] if bad else (t["ev"][0], extra[0])
+            w = m["worst"]
+            msg = (f"C20: clause LoopMatchesQuadrature (closed-form loop potential vs quadrature of mu0 I/4pi oint dl/|r-r'|) fails in regime {what}: "
+                   f"{len(bad)} of {len(t['ev'])} loop evaluations rejected; first: {m['api']} loop {m['loop']}: "
+                   + (f"the real code raised {m['raised']}; " if m["raised"] else "")
+                   + (f"{ev['nonfinite']} NaN/inf components (e.g. at {m['nonfinite_points'][:2]}); " if ev["nonfinite"] else "")
+                   + f"worst point {w['point']} (rho/R = {w['rho_over_R']:.3g}, z/R = {w['z_over_R']:.3g}): package {w['package_T_m']} T m, quadrature {w['quadrature_T_m']} T m, "
+                     f"deviation {w['deviation_over_scale']:.3g} of the scale (tolerance 1e-6; scale = {w['scale_over_mu0I_4pi']:.3g} mu0 I/4pi)")
+            key = f"C20:loopquad:{what}"
+            extra = {"rejected_events": [mm for _, mm in bad][:8]}
         else:
             worst = max(abs(a - b) for a, b in zip(e["a"], e["b"])) if len(e["a"]) == len(e["b"]) else -1
             msg = f"C20: relation {what} fails on the solved device: largest difference {worst} quanta of 1e-9 of the scale (tolerance {TOL_REL}); values {extra}"
@@ -135,10 +170,14 @@ def _run(ctx):
             ctx.cov["further_rejected_traces"] = ctx.cov.get("further_rejected_traces", 0) + 1
     for n in sorted(accepted)[:2] + [x for x in sorted(accepted) if labels[x][0] == "relation"][:2]:
         ctx.sample({"label": labels[n][:2], "event": traces[n]["ev"][0]}, limit=6)
+    for n in [x for x in sorted(accepted) if labels[x][0] == "loopq"][:1]:
+        ctx.sample({"label": labels[n][:2], "first_event": {k: (v[:6] if isinstance(v, list) else v) for k, v in traces[n]["ev"][0].items()},
+                    "worst_point": labels[n][2][0]["worst"]}, limit=7)
     # canaries
     good_f = next((n for n in sorted(accepted) if labels[n][0] == "instance" and traces[n]["ev"][0]["bz"]), None)
     good_c = next((n for n in sorted(accepted) if labels[n][0] == "convert_field" and traces[n]["ev"][0]["mu"] != 0), None)
     good_r = next((n for n in sorted(accepted) if labels[n][0] == "relation"), None)
+    good_l = next((n for n in sorted(accepted) if labels[n][0] == "loopq"), None)
     bads = []
     if good_f is not None:
         b = copy.deepcopy(traces[good_f])
@@ -152,6 +191,14 @@ def _run(ctx):
         b = copy.deepcopy(traces[good_r])
         b["ev"][0]["a"][0] += TOL_REL + 5
         bads.append(b)
+    if good_l is not None:
+        b = copy.deepcopy(traces[good_l])       # one component off by more than the tolerance
+        k = next(j for j, v in enumerate(b["ev"][-1]["b"]) if v != 0) if any(b["ev"][-1]["b"]) else 0
+        b["ev"][-1]["a"][k] += TOL_REL + 5
+        bads.append(b)
+        b = copy.deepcopy(traces[good_l])       # a NaN that happens to be quantised onto the reference
+        b["ev"][0]["nonfinite"] = 1
+        bads.append(b)
     if bads:
         acc, _ = ctx.validate_traces("FieldKernelsTrace", bads, tcfg, name="canary[C20]", count=False)
         if acc:
@@ -159,13 +206,24 @@ def _run(ctx):
         ctx.cov["canaries_rejected"] += len(bads)
     elif not ctx.violations:
         raise core.MachineryFailure("C20: nothing accepted to carry a canary")
-    ctx.cov["bounds"]["replayed"] = {"instances": len(chosen), "kernel_evaluations": len(ev_field), "conversions": len(ev_conv), "relations": nrel}
+    ctx.cov["bounds"]["replayed"] = {"instances": len(chosen), "kernel_evaluations": len(ev_field), "conversions": len(ev_conv), "relations": nrel,
+                                     "loop_quadrature_traces": len(nloop)}
+    # vacuity: the loop family must really contain the axis, every decade 1e-9 .. 1e-3 off it, the far field and generic points,
+    # each for >= 4 loops (after the verdicts: a refuted tree keeps exit 1)
+    need = [("on_axis", 0), ("generic", 0)] + [("near_axis", k) for k in range(-9, -2)] + [("far_field", k) for k in range(2, 7)]
+    missing = [x for x in need if nloop.get(x, 0) < 4]
+    if missing and not ctx.violations:
+        raise core.MachineryFailure(f"C20: the loop-quadrature family does not contain {missing}")
+    if good_l is None and not ctx.violations:
+        raise core.MachineryFailure("C20: no loop-quadrature trace was accepted (nothing to carry the canary)")
     ctx.cov["rule"] = ("model: every instance of <= 2 elements in the displacement universe and every triple of field units; binding: a deterministic sample "
                        "of TLC's instances + the design's anchor instances through the real kernels in 4 unit choices and the reference sums, all ordered "
-                       "pairs of 12 field units through convert_field, relations on a solved device and the loop laws; non-trivial = every instance / "
-                       "conversion between different units / relation; distinct = distinct (evaluator, instance), unit pairs, relations")
-    ctx.assume("the closed-form loop potential vs numerical quadrature comparison is not decided by the specification (no finite exact instance); "
-               "only linearity in the current, the scaling law and the symmetries of current_loop_vector_potential are checked")
+                       "pairs of 12 field units through convert_field, relations on a solved device and the loop laws; the closed-form loop potential vs "
+                       "the harness' quadrature on loops x regimes (on the axis, 1e-9..1e-3 R off it, >= 200 R away, generic); non-trivial = every instance / "
+                       "conversion between different units / relation / loop evaluation; distinct = distinct (evaluator, instance), unit pairs, relations, "
+                       "(regime, loop, api)")
+    ctx.assume("loop clause: the quadrature (midpoint rule, 2048 source points, cancellation-free form) is the reference; it is cross-checked in every run against "
+               "the plain Cartesian sum, against its own refinement (1e-12) and against the dipole limit; points closer than 0.2 R to the wire are not evaluated")
     ctx.assume("reference sums in harness/fields.py are themselves validated against TLC's exact values on the same instances")
 
 
